@@ -19,7 +19,12 @@ Totality part
   MCTotality enumerates the inputs (family parameters): token sequences in six syntactic
   contexts, mutants of seed programs (token delete/duplicate/swap/replace, truncation,
   insertion of every abstract symbol), ill-typed programs, nesting up to depth 64, module
-  trees in memory and on disk.  Python renders each descriptor to source text / files (pure
+  trees in memory and on disk, string / f-string literals whose body is every sequence of
+  <= 3 ingredients (plain and multi-byte text, valid and invalid escapes, doubled curlies,
+  interpolations; terminated or not), "infinite type" programs (an inference variable unified
+  with a term containing it under <= 3 list / record / Option / enum wrappers).  For the last
+  two MCTotality also prints what must happen: a report (never a package), and for a literal
+  whose first invalid escape is self-contained the exact byte range the report must cite.  Python renders each descriptor to source text / files (pure
   representation mapping), worker processes compile them with the real crate and render the
   report with and without colour; the recorded events must be behaviours of Totality
   (TraceTotality.tla): compile ends in ok or in a report whose cited spans are well formed,
@@ -663,6 +668,44 @@ CONTENTS = [("empty", lambda n: ""),
             ("imports", lambda n: "import super.f0;\nimport pkg.a.f1;\nfn f%d() -> i32 { 1 }\n" % n)]
 
 
+# ---- string / f-string literal bodies ------------------------------------------------------
+# ingredients of a literal body: (text, class); the class is what MCTotality reasons about
+INGREDIENTS = [("ab", "plain"), ("\u00e9", "plain"), ("\u8001", "plain"), ("\U0001f600", "plain"), (" ", "plain"),
+               ("\\n", "valid"), ('\\"', "valid"), ("\\\\", "valid"), ("\\x41", "valid"), ("\\u{e9}", "valid"),
+               ("\\q", "bad"), ("\\u{110000}", "bad"), ("\\u{}", "bad"), ("\\u{d800}", "bad"), ("\\\u00e9", "bad"),
+               ("\\x4", "open"),
+               ("{{", "curly"), ("}}", "curly"), ("{x}", "interp")]
+LIT_PREFIXES = ["fn f(x: i32) -> String { ", "// \u00e9\u8001 \U0001f600\nfn f(x: i32) -> String {\n    "]
+LIT_KINDS = {1: ('"', "string"), 2: ('f"', "fstring")}
+
+# ---- infinite types --------------------------------------------------------------------------
+INF_DECLS = "record R[T] { a: T }\nenum E[T] { V(T), N }\n"
+INF_WRAPPERS = [("list", "[%s]"), ("anon_record", "{ a: %s }"), ("named_record", "R { a: %s }"),
+                ("some", "Option.Some(%s)"), ("enum_ctor", "E.V(%s)")]
+INF_VARS = [("list", "let x = [];", "x.push(%s);"), ("option", "let x = Option.None;", "x = Option.Some(%s);")]
+
+
+def render_lit(p):
+    kind, term, pre, ing = p[0], p[1], p[2], p[3:]
+    opener, kname = LIT_KINDS[kind]
+    head = LIT_PREFIXES[pre - 1]
+    body = "".join(INGREDIENTS[i - 1][0] for i in ing)
+    src = head + opener + body + ('"' if term else "") + " }\n"
+    used = [INGREDIENTS[i - 1][0] for i in ing] + ["lit_" + kname, "term%d" % term, "litpre%d" % pre]
+    return {"k": "src", "src": src, "base": len(head.encode("utf-8"))}, "lit:" + kname, used
+
+
+def render_inf(p):
+    v, steps, ws = p[0], p[1], p[2:]
+    vname, decl, unify = INF_VARS[v - 1]
+    term = "x"
+    for w in reversed(ws):
+        term = INF_WRAPPERS[w - 1][1] % term
+    body = decl + " " + (unify % term if steps == 1 else "let r = %s; %s" % (term, unify % "r"))
+    src = INF_DECLS + "fn f() { " + body + " }\n"
+    return {"k": "src", "src": src}, "inf:" + vname, [INF_WRAPPERS[w - 1][0] for w in ws] + ["inf_steps%d" % steps]
+
+
 def families(tier):
     """The parameter object MCTotality reads (bounds of the enumeration for this tier)."""
     tokidx = {n: i + 1 for i, (n, _) in enumerate(TOKENS)}
@@ -686,7 +729,9 @@ def families(tier):
                       "ipos": [c for c in range(0, nchar + 1) if (c + si) % istride == 0]})
     groups = ill_groups()
     small = [tokidx[n] for n in SMALL_TOKENS]
-    return {"ntok": len(TOKENS), "small": small, "plans": plans, "seeds": seeds, "replace": replace, "nsym": len(ALPHA),
+    lit = {"ing": [{"w": len(t.encode("utf-8")), "cls": c} for t, c in INGREDIENTS], "litlen": 3,
+           "litfull": 0 if tier == "quick" else 1, "nlitpre": len(LIT_PREFIXES), "ninfvar": len(INF_VARS), "nwrap": len(INF_WRAPPERS), "infdepth": 3}
+    return {**lit, "ntok": len(TOKENS), "small": small, "plans": plans, "seeds": seeds, "replace": replace, "nsym": len(ALPHA),
             "ill": [len(m) for _, m in groups], "nnest": len(NEST), "depths": DEPTHS,
             "nslot": len(SLOTS), "maxfiles": maxfiles, "ncontent": len(CONTENTS)}
 
@@ -779,7 +824,20 @@ def render_tree(p, root_dir):
 
 
 def render_descriptor(d, root_dir):
+    case, family, used = render_descriptor0(d, root_dir)
+    # the expectation MCTotality printed for this input travels with the case (the harness ignores it)
+    case["must"] = d.get("must", "any")
+    at = d.get("at") or []
+    case["at"] = [case.get("base", 0) + at[0], case.get("base", 0) + at[1]] if at else []
+    return case, family, used
+
+
+def render_descriptor0(d, root_dir):
     fam, p = d["fam"], d["p"]
+    if fam == "lit":
+        return render_lit(p)
+    if fam == "inf":
+        return render_inf(p)
     if fam == "seq":
         return render_seq(p)
     if fam == "mut":
@@ -846,15 +904,16 @@ def span_flaw(sp, case):
 def events_of(i, case, res):
     """Result of one harness case -> the events of the Totality outcome machine (representation only)."""
     oc = vlib.outcome_of(res)
+    exp = {"must": case.get("must", "any"), "at": case.get("at", [])}
     if oc != "returned":
         kind = "hang" if oc == "hang" else ("panic" if oc == "panic" else "crash")
-        return [{"op": "compile", "id": i, "outcome": kind}]
+        return [dict(exp, op="compile", id=i, outcome=kind)]
     r = res["r"]
     if r["outcome"] == "ok":
-        return [{"op": "compile", "id": i, "outcome": "ok"}]
+        return [dict(exp, op="compile", id=i, outcome="ok")]
     if r["outcome"] == "panic":
-        return [{"op": "compile", "id": i, "outcome": "panic"}]
-    evs = [{"op": "compile", "id": i, "outcome": "report",
+        return [dict(exp, op="compile", id=i, outcome="panic")]
+    evs = [{"op": "compile", "id": i, "outcome": "report", "must": exp["must"], "at": exp["at"],
             "spans": [{"file": s["file"], "len": s["len"], "start": s["start"], "end": s["end"], "ok": bool(s["ok"])}
                       for s in r["spans"]]}]
     for rd in r["render"]:
@@ -880,11 +939,19 @@ def signature_of(un, case, res, family="?"):
                 "compiling %s panicked in phase %s at %s (in %s): %s" %
                 (shown, r.get("phase"), rel(r.get("loc")), r.get("fn"), r.get("msg")))
     r = res["r"]
+    if evn["op"] == "compile" and evn["outcome"] == "ok":
+        return ({"kind": "accepted-erroneous-input", "family": family},
+                "%s is erroneous by construction (%s) but compiled to a package" % (shown, family))
     errkind = "+".join(sorted(set(r.get("kinds", []))))
     flaws = [f for f in (span_flaw(s, case) for s in r.get("spans", [])) if f]
     flaw = flaws[0] if flaws else "none"
     bad = [sp for sp in r.get("spans", []) if span_flaw(sp, case)]
     at0 = "yes" if bad and all(sp["start"] == 0 for sp in bad) else "no"
+    if evn["op"] == "compile" and not bad and "erroneous text" in un.get("why", ""):
+        first = r["spans"][0] if r.get("spans") else None
+        return ({"kind": "wrong-label", "family": family, "errkind": errkind},
+                "the report for %s cites bytes %s, the erroneous text (the invalid escape) is bytes %s..%s (\"%s\")" %
+                (shown, first and "%d..%d" % (first["start"], first["end"]), evn["at"][0], evn["at"][1], r.get("head")))
     if evn["op"] == "compile":
         return ({"kind": "bad-span", "flaw": flaw, "errkind": errkind, "at_file_start": at0},
                 "the report for %s cites a location that is not inside its file on character boundaries (%s): %s" %
@@ -978,10 +1045,12 @@ def totality(tier, ev, verd, stats):
     # anti-vacuity: every family, every mutation operator, every token kind / symbol / slot was generated,
     # every outcome class was observed
     need_fams = (["seq:" + c for c, _ in CTXS] + ["mut:" + m for m in MUT_OPS.values()] +
-                 ["ill:" + g for g, _ in ill_groups()] + ["nest:" + n for n, _ in NEST] + ["tree:disk", "tree:mem"])
+                 ["ill:" + g for g, _ in ill_groups()] + ["nest:" + n for n, _ in NEST] + ["tree:disk", "tree:mem"] +
+                 ["lit:string", "lit:fstring"] + ["inf:" + v for v, _, _ in INF_VARS])
     missing = [f for f in need_fams if not fam_count.get(f)]
     missing += [t for t, _ in TOKENS if not used_count.get(t)] + [a for a in ALPHA if not used_count.get(a)]
     missing += [sl for sl in SLOTS if not used_count.get(sl)] + [c for c, _ in CONTENTS if not used_count.get(c)]
+    missing += [t for t, _ in INGREDIENTS if not used_count.get(t)] + [w for w, _ in INF_WRAPPERS if not used_count.get(w)]
     if missing:
         raise vlib.ToolError("input families / operators / token kinds never generated: %s" % missing)
     for need in ("ok", "err:parse", "err:type", "err:read"):
@@ -1086,7 +1155,7 @@ def run(tier):
     ev.rule = ("cases = (a) abstract strings enumerated by TLC from Lexer.tla, each concretised with several "
                "representatives per class and lexed by the real lexer, (b) compiler inputs enumerated by MCTotality "
                "(token sequences in 6 contexts, mutants of 10 seed programs, ill-typed programs, nesting <= 64, module "
-               "trees in memory and on disk), each compiled and its report rendered twice by the real crate; distinct = "
+               "trees in memory and on disk, string/f-string literal bodies of <= 3 ingredients, infinite-type programs), each compiled and its report rendered twice by the real crate; distinct = "
                "distinct concrete source text / file tree; non-trivial = the lexer run has at least one token, resp. "
                "the input is not blank")
     import time
